@@ -69,7 +69,7 @@ def sanitizer_search(ctx, langdirs):
             if not w or w[0] not in ("crx", "lxx"):
                 continue
             proto = "cr" if w[0] == "crx" else "lx"
-            rc, out = sh([exe], input_text="%s %s\n" % (proto, " ".join(w[1:])), env={"ASAN_OPTIONS": "detect_leaks=1:abort_on_error=0", "UBSAN_OPTIONS": "print_stacktrace=1"}, timeout=300)
+            rc, out = sh([exe], input_text="%s %s\n" % (proto, " ".join(w[1:])), env={"ASAN_OPTIONS": "detect_leaks=1:abort_on_error=0:redzone=128", "UBSAN_OPTIONS": "print_stacktrace=1"}, timeout=300)
             runs += 1
             det += 1
             if rc != 0 or "ERROR: AddressSanitizer" in out or "runtime error:" in out:
